@@ -156,6 +156,14 @@ def exact_permeance(value_kg, unit, mw):
     return Permeance(value=float(si if unit == "SI" else si / Fraction("3.35e-10")), units=unit)
 
 
+def exact_permeance_to_kg(number, unit, mw):
+    """the number `number` stated in `unit`, as kg/(m2 h kPa) for a component of molar mass mw (exact rational factors)."""
+    if unit == Units.kg_m2_h_kPa:
+        return float(number)
+    si = Fraction(number) * (1 if unit == "SI" else Fraction("3.35e-10"))
+    return float(si * Fraction(mw) * 3600)
+
+
 # ---------------------------------------------------------------------------------------------
 # membranes
 # ---------------------------------------------------------------------------------------------
